@@ -15,3 +15,5 @@ func stopMetadataCleanup(t *oidc.TraefikOidc) bool { return false }
 func housekeeping(t *oidc.TraefikOidc) bool { return false }
 
 func endpointsOf(t *oidc.TraefikOidc) map[string]string { return nil }
+
+func deriveBlockKeyOf(key string) []byte { return nil }
